@@ -34,11 +34,15 @@ ANCHORS = ['cli:UpdateCommand.__call__', 'verify:update_entry_for_path',
            'recursiveloader:ManifestRecursiveLoader.find_timestamp',
            'recursiveloader:ManifestRecursiveLoader.set_timestamp']
 REQUIRED = ['cli:UpdateCommand.__call__', 'rounds_compared', 'timestamps_checked',
-            'inject_runs', 'tz:XXX8', 'tz:XXX-8']
+            'inject_runs', 'tz:XXX8', 'tz:XXX-8', 'tz:CET-1CEST,M3.5.0,M10.5.0/3']
 ASSUMPTIONS = ['timezones are sampled (POSIX TZ strings without DST)',
                'the system clock does not step during a run']
 
-TZS = ['UTC', 'XXX-8', 'XXX8', 'XXX-5:30', 'XXX12']
+TZS = ['UTC', 'XXX-8', 'XXX8', 'XXX-5:30', 'XXX12',
+       # zones with DST rules (a TIMESTAMP in their standard-time half of the year is
+       # obtained by moving the previous TIMESTAMP to January / July)
+       'CET-1CEST,M3.5.0,M10.5.0/3', 'EST5EDT,M3.2.0,M11.1.0',
+       'AEST-10AEDT,M10.1.0,M4.1.0/3']
 N = {'quick': 600, 'thorough': 20000}
 PER_UNIT = 6
 
@@ -250,6 +254,21 @@ def run_history(ctx, d, case):
                 ctx.count('harness_error')
                 ctx.extra.setdefault('harness_errors', []).append('create: %r' % (rc,))
                 return
+        if case.get('past_ts'):
+            # previous TIMESTAMP moved to a fixed date in winter or summer
+            for r in (rootA, rootB):
+                mp = os.path.join(r, 'Manifest')
+                with open(mp) as f:
+                    lines = f.read().split('\n')
+                lines = ['TIMESTAMP ' + case['past_ts'] if ln.startswith('TIMESTAMP ')
+                         else ln for ln in lines]
+                with open(mp, 'w') as f:
+                    f.write('\n'.join(lines))
+                # nothing in the tree may look newer than that by accident
+                for dp, dn, fn in os.walk(r):
+                    for x in fn:
+                        if not x.startswith('Manifest'):
+                            os.utime(os.path.join(dp, x), (1500000000, 1500000000))
         if case.get('future_ts'):
             # a Manifest whose TIMESTAMP lies in the future (clock stepped back, or
             # written on a host running ahead)
@@ -275,10 +294,11 @@ def run_history(ctx, d, case):
             t0 = time.time()
             with open(os.path.join(rootA, 'Manifest'), 'rb') as f:
                 top_before = f.read()
-            rcA = cli(['update', '--incremental', '--hashes', hashes, rootA])
+            targs = ['-t'] if case.get('use_t') else []
+            rcA = cli(['update', '--incremental', '--hashes', hashes] + targs + [rootA])
             firstA = _scan['first']
             t1 = time.time()
-            rcB = cli(['update', '--hashes', hashes, rootB])
+            rcB = cli(['update', '--hashes', hashes] + targs + [rootB])
             ctx.case(sig=('hist', tz, tuple(sorted({o['kind'] + ':' + o['when']
                                                     for o in ops})), constrained),
                      case=case, nontrivial=modified and constrained, klass='tz-' + tz)
@@ -338,10 +358,15 @@ def run_hist(u, ctx):
         case = {'kind': 'hist', 'tz': TZS[(u['i'] * PER_UNIT + j) % len(TZS)],
                 'tree': gen_tree(rng),
                 'future_ts': rng.choice([0, 0, 0, 0, 0, 0, 0, 3600, 86400]),
+                'past_ts': rng.choice([None, None, '2026-01-15T12:00:00Z',
+                                       '2026-07-15T12:00:00Z']),
+                'use_t': rng.random() < 0.3,
                 'hashes': sorted(rng.sample(mtext.supported_hashes(), rng.randint(1, 2))),
                 'rounds': [gen_round(rng, rng.randint(1, 5))
                            for _ in range(rng.randint(1, 6 if ctx.tier == 'thorough'
                                                       else 4))]}
+        if case['past_ts']:
+            case['future_ts'] = 0
         with common.Scratch('vf-c11-') as d:
             run_history(ctx, d, case)
         if j == 0:
@@ -366,6 +391,8 @@ def run_inject_case(ctx, case):
             victim = {}
 
             def hook(path, n):
+                if n == 1 and case.get('slow_t'):
+                    time.sleep(1.15)    # the scan crosses a second boundary
                 if n == case['k'] and os.path.basename(path).startswith('f') \
                         and not victim:
                     with open(path, 'rb') as f:
@@ -378,10 +405,23 @@ def run_inject_case(ctx, case):
                     victim['path'] = path
                     victim['data'] = new
             _scan['hook'] = hook
+            # make sure the update has something to write
+            with open(os.path.join(root, 'touched-by-test'), 'w') as f:
+                f.write('new')
             try:
-                rc1 = cli(['update', '--hashes', hashes, root])
+                rc1 = cli(['update', '--hashes', hashes] +
+                          (['-t'] if case.get('slow_t') else []) + [root])
+                first_scan = _scan['first']
             finally:
                 _scan['hook'] = None
+            if rc1 == 0 and case.get('slow_t') and first_scan is not None:
+                tnew = read_ts(root)
+                ctx.count('timestamps_checked')
+                if tnew is not None and tnew > first_scan + 0.001:
+                    ctx.violation('timestamp-after-scan-start', 'TIMESTAMP %d written by '
+                                  '`update -t` is later than the moment scanning '
+                                  'started (%.3f)' % (tnew, first_scan), case)
+                    return
             ctx.case(sig=('inject', tz, case['k'], bool(victim)), case=case,
                      nontrivial=bool(victim), klass='inject')
             ctx.count('inject_runs')
@@ -409,7 +449,7 @@ def run_inject_case(ctx, case):
 def run_inject(u, ctx):
     rng = common.rng_for(ctx.seed, ID, 'inject', u['i'])
     case = {'kind': 'inject', 'tz': TZS[u['i'] % len(TZS)], 'tree': gen_tree(rng),
-            'hashes': ['SHA256'], 'k': rng.randint(1, 4)}
+            'hashes': ['SHA256'], 'k': rng.randint(1, 4), 'slow_t': u['i'] % 4 == 3}
     run_inject_case(ctx, case)
     ctx.sample(case, 'inject')
 
